@@ -494,6 +494,29 @@ fn bif_case(tier: &str, names: &[String], idx: u64) -> (String, Vec<usize>) {
 
 pub fn iteration_cases() -> Vec<String> {
   let mut out = vec![];
+  // string escapes at the boundaries of the UTF-16 surrogate ranges and of the code space: every single escape,
+  // every ordered pair and every triple of \u forms over the boundary code units, and the long \U forms
+  let units = ["0000", "0041", "D7FF", "D800", "DBFF", "DC00", "DFFF", "E000", "FFFF"];
+  for a in units {
+    out.push(format!("\"\\u{}\"", a));
+    out.push(format!("string length(\"x\\u{}\")", a));
+    for b in units {
+      out.push(format!("\"\\u{}\\u{}\"", a, b));
+      out.push(format!("{{k: \"\\u{}\\u{}\"}}", a, b));
+      for c in units {
+        out.push(format!("\"\\u{}\\u{}\\u{}\"", a, b, c));
+      }
+    }
+  }
+  for long in ["000000", "00D800", "00DFFF", "010000", "10FFFF", "110000", "FFFFFF", "00000000", "0010FFFF", "FFFFFFFF"] {
+    out.push(format!("\"\\U{}\"", long));
+    out.push(format!("\"\\U{}\\uDC00\"", long));
+    out.push(format!("\"\\uD800\\U{}\"", long));
+  }
+  for bad in ["\\u", "\\u1", "\\u12", "\\u123", "\\uD800\\u", "\\uD800\\uDC", "\\uZZZZ", "\\U", "\\U12345", "\\x41", "\\"] {
+    out.push(format!("\"{}\"", bad));
+    out.push(format!("\"a{}", bad));
+  }
   let sizes = [0, 1, 2, 16, 64];
   for a in sizes {
     for b in sizes {
